@@ -2238,6 +2238,8 @@ def run_auth_scripts(
         # execute each additional script
         scripts = scripts[1:]
         for s in scripts:
+            if 'returned' in cache:
+                del cache['returned']
             tape = Tape(
                 s if type(s) is bytes else s.bytes,
                 callstack_limit=tape.callstack_limit,
